@@ -175,19 +175,19 @@ func (n *InfluxQLNode) UsePointTimes() *InfluxQLNode {
 func (n *chainnode) Count(field string) *InfluxQLNode {
 	i := newInfluxQLNode("count", field, n.Provides(), StreamEdge, ReduceCreater{
 		CreateFloatIntegerReducer: func() (query.FloatPointAggregator, query.IntegerPointEmitter) {
-			fn := query.NewFloatFuncIntegerReducer(query.FloatCountReduce, &query.IntegerPoint{Value: 0})
+			fn := query.NewFloatFuncIntegerReducer(query.FloatCountReduce, &query.IntegerPoint{Value: 0, Time: query.ZeroTime})
 			return fn, fn
 		},
 		CreateIntegerReducer: func() (query.IntegerPointAggregator, query.IntegerPointEmitter) {
-			fn := query.NewIntegerFuncReducer(query.IntegerCountReduce, &query.IntegerPoint{Value: 0})
+			fn := query.NewIntegerFuncReducer(query.IntegerCountReduce, &query.IntegerPoint{Value: 0, Time: query.ZeroTime})
 			return fn, fn
 		},
 		CreateStringIntegerReducer: func() (query.StringPointAggregator, query.IntegerPointEmitter) {
-			fn := query.NewStringFuncIntegerReducer(query.StringCountReduce, &query.IntegerPoint{Value: 0})
+			fn := query.NewStringFuncIntegerReducer(query.StringCountReduce, &query.IntegerPoint{Value: 0, Time: query.ZeroTime})
 			return fn, fn
 		},
 		CreateBooleanIntegerReducer: func() (query.BooleanPointAggregator, query.IntegerPointEmitter) {
-			fn := query.NewBooleanFuncIntegerReducer(query.BooleanCountReduce, &query.IntegerPoint{Value: 0})
+			fn := query.NewBooleanFuncIntegerReducer(query.BooleanCountReduce, &query.IntegerPoint{Value: 0, Time: query.ZeroTime})
 			return fn, fn
 		},
 		IsEmptyOK: true,
@@ -291,11 +291,11 @@ func (n *chainnode) Spread(field string) *InfluxQLNode {
 func (n *chainnode) Sum(field string) *InfluxQLNode {
 	i := newInfluxQLNode("sum", field, n.Provides(), StreamEdge, ReduceCreater{
 		CreateFloatReducer: func() (query.FloatPointAggregator, query.FloatPointEmitter) {
-			fn := query.NewFloatFuncReducer(query.FloatSumReduce, &query.FloatPoint{Value: 0})
+			fn := query.NewFloatFuncReducer(query.FloatSumReduce, &query.FloatPoint{Value: 0, Time: query.ZeroTime})
 			return fn, fn
 		},
 		CreateIntegerReducer: func() (query.IntegerPointAggregator, query.IntegerPointEmitter) {
-			fn := query.NewIntegerFuncReducer(query.IntegerSumReduce, &query.IntegerPoint{Value: 0})
+			fn := query.NewIntegerFuncReducer(query.IntegerSumReduce, &query.IntegerPoint{Value: 0, Time: query.ZeroTime})
 			return fn, fn
 		},
 		IsEmptyOK: true,
